@@ -726,6 +726,7 @@ class Rewriter:
         b = self.method_to_fn(b, 'is_null', 'p_is_null', 'R22:is_null')
         b = self.sub('R22:ptr-eq', r'\b(self\.(?:ptr|end)) == (self\.(?:ptr|end))\b', r'p_eq(\1, \2)', b)
         b = self.sub('R22:zeroed', r'\bmem::zeroed\(\)', 'zst_value()', b)
+        b = self.map_calls(b, r'(?<![\w.:])mem::replace', lambda m_, a: 'vec_replace(%s)' % ', '.join(a) if a and a[0] == 'self' else None, 'R22:replace')
         b = self.sub('R22:forget', r'\bmem::forget\(self\)', 'vec_forget(self)', b)
         b = self.sub('R8:size_of-T', r'\bmem::size_of::<\s*T\s*>\(\)', 'ELEM_SIZE()', b)
         # model types
@@ -861,6 +862,8 @@ class Rewriter:
         b = self.sub('R25:str-forward', r'\bPartialEq::eq\(&self\[\.\.\], &other\[\.\.\]\)', 'str_partial_eq(hs, self.deref(hs), other.deref(hs))', b)
         b = self.sub('R25:str-forward', r'\bfmt::(Display|Debug)::fmt\(&\*\*self, (\w+)\)', lambda m: 'str_fmt_%s(hs, self.deref(hs), %s, cl)' % (m.group(1).lower(), m.group(2)), b)
         b = self.sub('R25:str-forward', r'\(\*\*self\)\.hash\((\w+)\)', r'str_hash(hs, self.deref(hs), \1, cl)', b)
+        b = self.sub('R25:str-forward', r'\b(\w+)\.write_str\(self\)', r'formatter_write_str(hs, self.deref(hs), \1, cl)', b)
+        b = self.sub('R25:str-forward', r'\bself\.vec\.hash\((\w+)\)', r'bytes_hash(hs, self.vec.as_slice(), \1, cl)', b)
         b = self.sub('R25:owned-item', r'\bself\.push_str\(&s\)', 'self.push_str(s)', b)
         b = self.sub('R25:cloned-chars', r'\bself\.extend\(iter\.into_iter\(\)\.cloned\(\)\)', 'self.extend_chars(hs, iter.into_iter())', b)
         for name in ['push_str', 'push', 'reserve']:
@@ -963,6 +966,7 @@ class Rewriter:
         b = self.sub('R28:typed-cast', r'\s+as \*mut T\b', '', b)
         b = self.sub('R28:callback', r'(?<![\w.])f\(\)', 'self.%s(w, fs, 0, Ghost(ptr), Ghost(rsv), Ghost(blk))' % cb, b)
         b = self.sub('R28:nested-call', r'(?<![\w.])inner_writer\((\w+), f\)', r'self.inner_writer__%s(w, fs, \1, Ghost(layout.size_), Ghost(rsv), Ghost(blk))' % (c.get('outer') or ''), b)
+        b = self.sub('R28:dangling', r'\bNonNull::(?:<T>::)?dangling\(\)\.as_ptr\(\)', 'dangling_elem()', b)
         b = self.sub('R28:reborrow', r'&mut \*p\b', 'p', b)
         b = self.sub('R2:cast', r'\.cast::<\s*T\s*>\(\)', '', b)
         b = self.sub('R28:src-ptr', r'\bsrc\.as_ptr\(\)', 'src.addr', b)
